@@ -28,7 +28,7 @@ REAL_VS_STUB = {'real': ['kyupy.circuit.Circuit: copy, __getstate__/__setstate__
 ASSUMPTIONS = ['the set of cell names every library must offer is the pinned tree\'s (dsim/data/libcells.json, 1026 names); additional cells are fine', 'an instance input pin is left unconnected only where "reads 0" and "not connected" give the cell the same function (otherwise the function before resolving is ambiguous)',
                'the function of a sequential library instance is defined through its implementation: state = the state element inside, result = value at that element\'s data pin',
                'one library per case; resolve_tlib_cells is called with the library the instances were taken from']
-EXPECTED_PROBES = ['shipped_netlist', 'fork_as_port', 'library_simulation_compared', 'manual_buffer_inserted', 'implementation_reused_after_edit', 'nested_multi_output_impl', 'resolve_step', 'substitute_step', 'restore_step', 'elim_step', 'unconnected_input_pin', 'unconnected_output_pin', 'sequential_cell', 'multi_output_cell', 'cell_without_output', 'ignored_pin_cell']
+EXPECTED_PROBES = ['spare_cells', 'shipped_netlist', 'fork_as_port', 'library_simulation_compared', 'manual_buffer_inserted', 'implementation_reused_after_edit', 'nested_multi_output_impl', 'resolve_step', 'substitute_step', 'restore_step', 'elim_step', 'unconnected_input_pin', 'unconnected_output_pin', 'sequential_cell', 'multi_output_cell', 'cell_without_output', 'ignored_pin_cell']
 
 LIBS = ['GSC180', 'NANGATE', 'NANGATE_ZN', 'SAED32', 'SAED90']
 HIDDEN_LATCH = ('DLH_X', 'DLL_X', 'TLAT_X1', 'TLATX1', 'TLATSRX1')
@@ -80,7 +80,8 @@ def gen(rng, tier, i):
         steps.append([k, rng.randrange(1 << 16), rng.randrange(1 << 16)])
     if not any(s[0] == 'resolve' for s in steps): steps.insert(rng.randint(0, len(steps)), ['resolve', 0, 0])
     return {'lib': li, 'n_in': n_in, 'items': items, 'outs': [rng.randrange(1 << 16) for _ in range(rng.randint(1, 4))], 'out_all_unread': rng.random() < 0.6,
-            'fmode': [rng.choice([0, 0, 1, 2, 3]) for _ in range(rng.randint(1, 5))], 'steps': steps, 'bench_ports': rng.random() < 0.25, 'ports_first': rng.random() < 0.3, 'node_order': rng.randrange(1, 1 << 16) if rng.random() < 0.4 else 0}
+            'fmode': [rng.choice([0, 0, 1, 2, 3]) for _ in range(rng.randint(1, 5))], 'steps': steps, 'bench_ports': rng.random() < 0.25, 'ports_first': rng.random() < 0.3, 'node_order': rng.randrange(1, 1 << 16) if rng.random() < 0.4 else 0,
+            'spare': rng.choice([200, 260, 300]) if rng.random() < 0.03 else 0}      # spare cells created before the logic: node indices beyond 255 in a netlist with few lines
 
 
 def cell_pins(impl):
@@ -149,6 +150,9 @@ def build(case, res):
         n = Node(c, f'i{k}', 'input'); ins.append(n)
         sigs.append((n, 0)); readers.append([])
     ffs = []
+    for k in range(case.get('spare') or 0):
+        Node(c, f'spare{k}', 'buf')
+    if case.get('spare'): res.probe('spare_cells')
     for j, it in enumerate(case['items']):
         avail = len(sigs)
         if it[0] == 'g':
@@ -524,6 +528,7 @@ def shrinks(case):
     if case.get('out_all_unread'): yield dict(case, out_all_unread=False)
     if case['n_in'] > 1: yield dict(case, n_in=case['n_in'] - 1)
     if case['fmode'] != [0]: yield dict(case, fmode=[0])
+    if case.get('spare'): yield dict(case, spare=0)
     if case.get('node_order'): yield dict(case, node_order=0)
     if case.get('ports_first'): yield dict(case, ports_first=False)
     if case.get('bench_ports'): yield dict(case, bench_ports=False)
